@@ -357,6 +357,7 @@ Definition S_move_transfers : Prop :=
 Definition S_last_handle_teardown : Prop :=
   forall prog rec g st st' go i, WF_top st -> live_sig g st = Some go -> g_impl go = Some i ->
     refcount i st = 1 ->
+    is_shared (sig_key g) st = false ->   (* a signal object co-owned by functors is not destroyed by the program: OGRelease and the last owner do that *)
     step prog rec (OGDel g) st = Done st' tt ->
     aget i (impls st') = None /\ (forall w n, conn_ptr w st = Some (i, n) -> conn_ptr w st' = None).
 
@@ -490,6 +491,7 @@ Definition S_forwarder_tracks_its_signal : Prop :=
 (* destroying (or move-constructing from) a trackable_signal invalidates its forwarders *)
 Definition S_forwarder_dies_with_signal : Prop :=
   forall prog rec g st st' go, WF st -> live_sig g st = Some go -> gk_track (g_kind go) = true ->
+    is_shared (sig_key g) st = false ->
     step prog rec (OGDel g) st = Done st' tt ->
     forall r f, In r (all_reps st') -> r_fn r = Some f -> f_fwd f <> Some g \/ ~ In (trackable_of_sig g) (f_refs f).
 
@@ -775,14 +777,14 @@ Definition S_trackable_notify_invalidates : Prop :=
 (* shared ownership: once the program has released its handle and no functor copy owns it, the
    object is destroyed at the end of the operation (and not before) *)
 Definition S_shared_trackable_lifetime : Prop :=
-  forall prog st st' t, WF st -> NoDup (map fst (shared st)) -> gc_shared prog st = Ok st' ->
+  forall prog st st' t, WF st -> NoDup (map fst (shared st)) -> gc_shared prog st = Ok st' -> t < 1000 ->
     (live_track t st <> None -> live_track t st' = None ->
        is_released t st = true /\ In t (map fst (shared st))) /\
     (live_track t st' <> None -> is_released t st' = true -> In t (map fst (shared st')) -> 0 < owner_count prog t st').
 
 (* without distinct keys in the table of shared trackables (a well-formed but unreachable state) *)
 Definition S_shared_trackable_lifetime_dupkeys : Prop :=
-  forall prog st st' t, WF st -> gc_shared prog st = Ok st' ->
+  forall prog st st' t, WF st -> gc_shared prog st = Ok st' -> t < 1000 ->
     (live_track t st <> None -> live_track t st' = None ->
        is_released t st = true /\ In t (map fst (shared st))) /\
     (live_track t st' <> None -> is_released t st' = true -> In t (map fst (shared st')) -> 0 < owner_count prog t st').
@@ -803,7 +805,7 @@ Definition after_op (p : program) (fuel : nat) (o : op) (st st1 : state) : Prop 
 (* S_shared_trackable_lifetime along every history, with no side condition *)
 Definition S_shared_trackable_lifetime_history : Prop :=
   forall p fuel st o st1 st2 t, reachable p fuel st -> after_op p fuel o st st1 ->
-    gc_shared p st1 = Ok st2 ->
+    gc_shared p st1 = Ok st2 -> t < 1000 ->
     NoDup (map fst (shared st1)) /\
     (live_track t st1 <> None -> live_track t st2 = None ->
        is_released t st1 = true /\ In t (map fst (shared st1))) /\
@@ -812,7 +814,7 @@ Definition S_shared_trackable_lifetime_history : Prop :=
 (* between operations no object survives without an owner: a shared trackable whose program handle
    has been released is alive only while some live functor copy owns it *)
 Definition S_no_orphan_at_rest : Prop :=
-  forall p fuel st t, reachable p fuel st ->
+  forall p fuel st t, reachable p fuel st -> t < 1000 ->
     live_track t st <> None -> is_released t st = true -> 0 < owner_count p t st.
 
 (* The nesting bound of the interpreter is not part of the meaning: a run that does not hit the
@@ -829,3 +831,17 @@ Definition S_fuel_monotone : Prop :=
 
 Definition S_reachable_mono : Prop :=
   forall p fuel fuel' st, (fuel <= fuel')%nat -> reachable p fuel st -> reachable p fuel' st.
+
+(* signal objects co-owned by functor copies (OGShare / OGRelease): the object is destroyed at the end
+   of the operation in which the program has released it and the last owning functor copy has gone,
+   and not before; between operations a released signal object is alive only while some live functor
+   copy owns it *)
+Definition S_shared_signal_lifetime_history : Prop :=
+  forall p fuel st o st1 st2 g, reachable p fuel st -> after_op p fuel o st st1 ->
+    gc_shared p st1 = Ok st2 ->
+    (live_sig g st1 <> None -> live_sig g st2 = None -> is_released (sig_key g) st1 = true) /\
+    (live_sig g st2 <> None -> is_released (sig_key g) st2 = true -> 0 < owner_count p (sig_key g) st2).
+
+Definition S_no_orphan_signal_at_rest : Prop :=
+  forall p fuel st g, reachable p fuel st ->
+    live_sig g st <> None -> is_released (sig_key g) st = true -> 0 < owner_count p (sig_key g) st.
